@@ -283,10 +283,22 @@ def hard_errors_after_consumption(g, ir, consumed=False, depth=0, seen=None):
         return out  # inner failures rewind to the start of the outer match
     if t == "seq":
         cons = consumed
+        prev = None
         for i in ir["items"]:
+            q = i["p"]
+            while q["t"] == "ctx":
+                q = q["p"]
+            inner = q["p"] if q["t"] == "cut" else None
+            while inner is not None and inner["t"] in ("ctx", "cut"):
+                inner = inner["p"]
+            if prev is not None and prev["t"] == "peek" and inner is not None and inner["t"] == "fail":
+                # `preceded(peek(X), cut_err(fail))` raises where X starts — the position `X.and_then(cut_err(fail))` reports
+                prev = i["p"]
+                continue
             out += hard_errors_after_consumption(g, i["p"], cons, depth + 1, seen)
-            if not g.nullable(i["p"]):
-                cons = True
+            if i["p"]["t"] not in ("peek", "notp") and not g.nullable(i["p"]):
+                cons = True  # (a look-ahead consumes nothing, whatever it looks at)
+            prev = i["p"]
         return out
     if t == "alt":
         for a_ in ir["alts"]:
